@@ -36,5 +36,8 @@ meta = {
         "summary": [l for l in checklog.splitlines() if l.strip().startswith("- ")][:6],
     },
 }
+note = os.environ.get("SEED_NOTE")
+if note:
+    meta["note"] = note
 json.dump(meta, open(f"{dst}/meta.json", "w"), indent=1)
 print("stored", dst, "detected" if viol else "MISSED")
